@@ -63,6 +63,61 @@ pub fn fragments() -> Vec<Vec<u8>>
 	out
 }
 
+/// Numeric literals at every size boundary of every radix: digit patterns x counts around the
+/// 128-bit limit, with leading zeros and underscores.
+pub fn numeric_forms() -> Vec<String>
+{
+	let mut v: Vec<String> = Vec::new();
+	let rep = |c: &str, n: usize| c.repeat(n);
+	for n in [1usize, 2, 63, 64, 65, 126, 127, 128, 129, 130, 200]
+	{
+		v.push(format!("0b{}", rep("1", n)));
+		v.push(format!("0b1{}", rep("0", n)));
+		v.push(format!("0b0{}", rep("1", n)));
+		v.push(format!("0b00{}1", rep("0", n)));
+		v.push(format!("0b1{}1", rep("0", n)));
+		v.push(format!("0b1_{}", rep("0", n)));
+		v.push(format!("0b{}_", rep("10", n / 2 + 1)));
+	}
+	for n in [1usize, 15, 16, 17, 30, 31, 32, 33, 34, 50]
+	{
+		v.push(format!("0x{}", rep("f", n)));
+		v.push(format!("0x{}", rep("F", n)));
+		v.push(format!("0x1{}", rep("0", n)));
+		v.push(format!("0x8{}", rep("0", n)));
+		v.push(format!("0x0{}", rep("f", n)));
+		v.push(format!("0x00{}1", rep("0", n)));
+		v.push(format!("0x1{}1", rep("0", n)));
+		v.push(format!("0x_{}", rep("f", n)));
+	}
+	for n in [1usize, 18, 19, 20, 37, 38, 39, 40, 41, 60]
+	{
+		v.push(rep("9", n));
+		v.push(format!("1{}", rep("0", n)));
+		v.push(format!("3{}", rep("4", n)));
+		v.push(format!("1_{}", rep("0", n)));
+	}
+	let max = u128::MAX;
+	for delta in 0..12u128
+	{
+		v.push(format!("{}", max - delta));
+		// max + 1 + delta written by hand: 340282366920938463463374607431768211456 + delta
+		v.push(format!("3402823669209384634633746074317682114{}", 56 + delta));
+	}
+	for t in [i128::MAX as u128, (i128::MAX as u128) + 1, u64::MAX as u128, (u64::MAX as u128) + 1, u32::MAX as u128, (u32::MAX as u128) + 1]
+	{
+		v.push(format!("{t}"));
+		v.push(format!("{t:#x}"));
+		v.push(format!("{t:#b}"));
+	}
+	v.sort();
+	v.dedup();
+	v
+}
+
+pub const NUMERIC_SUFFIXES: [&str; 9] = ["", "u8", "i8", "u128", "i128", "usize", "u7", "x", "_u8"];
+pub const NUMERIC_FOLLOWERS: [&str; 6] = ["", " ", ";", "\n1", " a", "."];
+
 /// Fragments relevant to numbers, quotes and separators (for the deeper k = 4 sweep).
 pub fn is_core_fragment(f: &[u8]) -> bool
 {
@@ -135,6 +190,11 @@ pub fn drive(d: &mut Driver)
 	push_prefix_jobs(&mut jobs, "fragcore", ncore, kcore);
 	d.phase("S-FRAG core", jobs);
 
+	let nforms = numeric_forms().len();
+	d.bound("numeric boundary forms x suffixes x followers", json!([nforms, NUMERIC_SUFFIXES.len(), NUMERIC_FOLLOWERS.len()]));
+	let jobs: Vec<Value> = (0..nforms).step_by(8).map(|lo| json!({"space": "numeric", "lo": lo, "hi": (lo + 8).min(nforms)})).collect();
+	d.phase("numeric boundary forms", jobs);
+
 	d.assume("the reference lexer (engine/src/model/reflex.rs) transcribes docs/errors.md E100-E163, docs/syntax.md and the sample files; where they are silent it answers 'unspecified' and only agreement between the two implementations is required");
 	d.assume("strings longer than the bounds, and characters outside the alphabets, are not explored");
 }
@@ -180,6 +240,23 @@ pub fn work(spec: &Value, w: &mut WorkerCtx)
 		return;
 	}
 	let space = spec["space"].as_str().unwrap();
+	if space == "numeric"
+	{
+		let forms = numeric_forms();
+		for i in spec["lo"].as_u64().unwrap() as usize..spec["hi"].as_u64().unwrap() as usize
+		{
+			for suffix in NUMERIC_SUFFIXES
+			{
+				for follower in NUMERIC_FOLLOWERS
+				{
+					let text = format!("{}{}{}", forms[i], suffix, follower);
+					w.result.transitions += 1;
+					judge(text.as_bytes(), w);
+				}
+			}
+		}
+		return;
+	}
 	let n = spec["n"].as_u64().unwrap() as usize;
 	let len = spec["len"].as_u64().unwrap() as usize;
 	let prefix: Vec<usize> = spec["prefix"].as_array().unwrap().iter().map(|x| x.as_u64().unwrap() as usize).collect();
